@@ -13,11 +13,12 @@ from vlib import tlc, check
 import nfc
 import nfc.clf
 import nfc.dep
-from sim.air import Air, DELIVER, LOSE, CORRUPT
+from sim.air import Air, AirStall, DELIVER, LOSE, CORRUPT
 
 PID = "C04"
 LR = (64, 128, 192, 254)
 R_TICKS = 2                    # the response waiting time is 2 ticks; timeouts are odd numbers of ticks
+STALL = 600.0                  # real seconds a port may wait for its peer's thread before the run is aborted (exit 2)
 BIG = 1.0e6                    # target side exchange() timeout (the spec assumes it never expires)
 
 K_ACK = "OneFaultOk:corrupted-ACK-while-initiator-chains:NAK-answered-by-ACK-rejected"
@@ -67,7 +68,8 @@ def decode_frame(fr):
     """air frame -> event fields; t = "OTHER" for anything that is not a DEP/RLS/DSL PDU."""
     d = bytearray(fr.data)
     out = dict(a="Frame", dir="IT" if fr.src == "I" else "TI", t="OTHER", pni=0, mi=False, did=False, nad=False,
-               len=0, sig=0, size=0, brty=fr.brty, fate=fr.fate, heard=bool(fr.heard) or fr.fate == LOSE, n=fr.n)
+               len=0, sig=0, size=0, brty=fr.brty, fate=fr.fate.replace("trunc:", "t"),
+               heard=bool(fr.heard) or fr.fate == LOSE, n=fr.n)
     if fr.fate == LOSE:
         out["heard"] = False
     if fr.brty == "106A":
@@ -126,10 +128,18 @@ class Conversation(object):
         return int(round((self.air.clock.now - self.t0) / self.tick))
 
     def _finalize(self, next_a):
-        if self.ev and self.ev[-1]["a"] == "Frame" and "post" not in self.ev[-1]:
-            tp = self.tgt.pni
-            self.ev[-1]["post"] = dict(ipni=self.ini.pni, tpni=4 if tp is None else tp, now=self._now(),
+        """the post-state of the last frame, taken when the next thing happens on the initiator's side or in the
+        target's application (a target that ends its exchange while the initiator still waits does not count: the
+        spec's step includes the initiator's timeout)"""
+        for rec in reversed(self.ev[-3:]):
+            if rec["a"] == "Frame":
+                if next_a == "TEnd" and rec["dir"] == "IT":
+                    break           # the target's exchange ended on this frame, the initiator is still waiting
+                if "post" not in rec:
+                    tp = self.tgt.pni
+                    rec["post"] = dict(ipni=self.ini.pni, tpni=4 if tp is None else tp, now=self._now(),
                                        ierr=next_a == "IErr")
+                break
 
     def log(self, a, **kw):
         self._finalize(a)
@@ -185,7 +195,8 @@ class Conversation(object):
         # did: the initiator was given a DID (it then sends a DID byte, also for 0); tdid: the ATR_REQ carries a
         # DID > 0, i.e. the target holds one; did0: a DID of 0 ("no DID" in the ATR_REQ) was configured
         return dict(lrI=lr_i, lrT=lr_t, did=did is not None, tdid=bool(did), did0=did == 0,
-                    nad=cfg.get("nad") is not None, miuI=ini.miu, miuT=None, R=R_TICKS, brty=ini.target.brty)
+                    nad=cfg.get("nad") is not None, sb=ini.target.brty == "106A",
+                    miuI=ini.miu, miuT=None, R=R_TICKS, brty=ini.target.brty)
 
     def _initiator(self):
         try:
@@ -225,6 +236,8 @@ class Conversation(object):
                 self.log("ICall", id=pid, n=n_i, D=d)
                 try:
                     got = ini.exchange(payload("I", pid, n_i), d * self.tick)
+                except AirStall:                      # the simulation's own watchdog is never a verdict
+                    raise
                 except BaseException as e:            # noqa: every failure is an event, judged by the spec
                     self.log("IErr", kind=err_kind(e))
                     return "err"
@@ -256,6 +269,8 @@ class Conversation(object):
             while True:
                 try:
                     got = tgt.exchange(data, BIG)
+                except AirStall:
+                    raise
                 except BaseException as e:            # noqa
                     self.log("TEnd", kind=err_kind(e))
                     break
@@ -271,7 +286,8 @@ class Conversation(object):
         return "ok"
 
     def run(self):
-        self.air = air = Air()
+        # the only real-time element is the air's watchdog against a hung simulation: generous, and never an event
+        self.air = air = Air(stall_timeout=STALL)
         clf_i, clf_t = air.frontends()
         if self.cfg.get("tech") == "F":
             air.devices["T"].listen_tech = ("212F", "424F")
@@ -410,6 +426,22 @@ def reactivation_specs(tier):
     return out
 
 
+def truncation_specs(tier):
+    """every frame of a conversation (but the one that completes the target's activation) truncated to k = 0..3
+    octets, in both directions, at 106A (start byte F0h), 212F and 424F"""
+    out = []
+    quick = tier == "quick"
+    for ci in (0, 1, 2) if quick else range(len(CONFIGS)):
+        cfg = CONFIGS[ci]
+        mi, mt = miu_of(cfg)
+        plan = dict(ex=[(mi + 1, 5, mt + 1), (2, 5, 2 * mt + 1), (1, 5, 1)], release="RLS")
+        for pos in range(1, 14 if quick else 18):
+            for k in range(4):
+                out.append(dict(id="c%d.%d.%d" % (ci, pos, k), cfg=cfg, plan=plan,
+                                fates=[DELIVER] * pos + ["trunc:%d" % k]))
+    return out
+
+
 def random_specs(tier, seed):
     """(b) long random conversations, fault rate 0..30 %"""
     rnd = random.Random(seed * 7919 + 17)
@@ -504,6 +536,10 @@ def classify(tr, verdict):
         return ["OnlyCommErr:Initiator.exchange-raised-%s" % e["kind"]]
     if kind == "guard" and act == "TEnd" and str(e.get("kind", "")).startswith("Other"):
         return ["OnlyCommErr:Target.exchange-raised-%s" % e["kind"]]
+    nxt = ev[line] if line < len(ev) else {}
+    if kind == "post" and act == "Frame" and nxt.get("a") == "IErr" and str(nxt.get("kind", "")).startswith("Other"):
+        # the frame made exchange() raise something that is not a CommunicationError
+        return ["OnlyCommErr:Initiator.exchange-raised-%s:after-%s-%s-%s" % (nxt["kind"], e["dir"], e["t"], e["fate"])]
     if act == "Activate" and kind == "guard":
         return [K_IPNI if e.get("ipni") else "conformance:guard@Activate"]
     what = e.get("t", "") if act == "Frame" else e.get("kind", "")
@@ -562,6 +598,7 @@ def judge(ck, traces, specs, verdicts):
 
 # ------------------------------------------------------------------ the check
 MC_INVS = ["FirstPni", "MiuOk", "ExactlyOnce", "Intact", "OnlyCommErr", "FrameFits", "OneFaultOk", "TargetOk", "PniInSync"]
+WITNESSES_T = ["W_CutAbsorbed", "W_CutFatal"]
 WITNESSES = ["W_Again", "W_Retx", "W_Atn", "W_Nak", "W_NakAck", "W_ChainBoth", "W_Wrap", "W_ErrTimeout", "W_ErrProto",
              "W_Release", "W_Absorbed"]
 
@@ -577,6 +614,14 @@ def run(tier, seed):
                      "TLC found a violation in the design-level model (variants ack, atn, miu on): %s"
                      % str(r.error_trace)[:2000])
     ck.cover(states=r.distinct, transitions=r.generated, mc_depth=r.depth)
+    rt = tlc.run("MC_NfcDep.tla", "MC_NfcDep_trunc.cfg", PID + "_trunc", workers=8, timeout=300)
+    if not rt.ok:
+        ck.violation("spec:NfcDep(truncation):" + ",".join(rt.violated or ["deadlock"]),
+                     "TLC found a violation in the truncated-frame model: %s" % str(rt.error_trace)[:2000])
+    ck.cover(states=rt.distinct, transitions=rt.generated)
+    hit_t, _ = tlc.witnesses("MC_NfcDep.tla", "MC_NfcDep_trunc.cfg", PID + "_trunc", WITNESSES_T)
+    if set(WITNESSES_T) - hit_t:
+        raise tlc.TLCError("vacuous model: witnesses not reached: %s" % sorted(set(WITNESSES_T) - hit_t))
     if True:        # re-activation of the same objects (MaxSess = 2) on its own, smaller fault bound
         rs = tlc.run("MC_NfcDep.tla", "MC_NfcDep_sess.cfg" if quick else "MC_NfcDep_sess_thorough.cfg", PID + "_sess",
                      workers=8 if quick else 16, timeout=300 if quick else 1500)
@@ -596,7 +641,8 @@ def run(tier, seed):
     ck.cover(asis_model_violates=sorted(a.violated), did0_model_violates=sorted(d0.violated))
 
     # 2. conformance: real conversations -> Trace_NfcDep
-    specs = boundary_specs(tier) + reactivation_specs(tier) + systematic_specs(tier) + random_specs(tier, seed)
+    specs = (boundary_specs(tier) + reactivation_specs(tier) + truncation_specs(tier) + systematic_specs(tier)
+             + random_specs(tier, seed))
     recs = record_all(specs)
     traces = [t for t, _ in recs]
     self_t = mutate_for_selftest(next(t for t in traces if any(e["a"] == "TRet" for e in t["ev"]) and len(t["ev"]) > 12))
@@ -616,13 +662,18 @@ def run(tier, seed):
              bit_rates=brty, configurations=len(CONFIGS),
              boundary_conversations=sum(1 for s in specs if s["id"][0] == "b"),
              reactivation_conversations=sum(1 for s in specs if s["id"][0] == "a"),
+             truncation_conversations=sum(1 for s in specs if s["id"][0] == "c"),
              binding_selftest="wrong PNI, dropped frame and altered payload signature all rejected")
     ck.sample(dict(trace=traces[0]["id"], const=traces[0]["const"], first_events=traces[0]["ev"][:5]))
     ck.sample(dict(mc="MC_NfcDep", distinct=r.distinct, depth=r.depth, asis_violations=sorted(a.violated)))
     ck.assume("the target application's timeout never expires during a conversation (1e6 s in the binding)",
               "a delivered or corrupted frame takes no virtual time; a lost frame costs exactly the requested timeout",
               "timeouts are odd multiples of rwt/2 so that float deadlines never tie with the response waiting time",
-              "faults are whole-frame loss or corruption reported by the driver (no undetected bit errors, no foreign frames: C07)",
+              "faults are whole-frame loss, corruption reported by the driver, or truncation to 0..3 octets handed over without"
+              " an error (a cut that decode_frame reports as transmission error counts as one fault; a short frame that reads as"
+              " a wrong length byte is a ProtocolError by design and a short/empty frame ends Target.exchange(): counted as"
+              " two, i.e. not required to be absorbed); no other undetected bit errors, no foreign frames (C07)",
+              "the frame that completes the target's activation (first DEP_REQ, handled by the driver) is not truncated",
               "exhaustive run on scaled LR (5..7 bytes); real LR 64..254 only by trace validation",
               "payloads are never empty (LLCP never sends an empty frame; Initiator.exchange(b'') raises UnboundLocalError)")
     return ck.finish()
